@@ -47,6 +47,7 @@ type Gen struct {
 type scope struct {
 	scalars []Var
 	arrays  []Var
+	consts  []Const
 }
 
 func (g *Gen) count(k string) { g.stats[k]++ }
@@ -116,7 +117,7 @@ func (g *Gen) randScalarTy(zeroOK bool, refineChance int) Ty {
 var arrLens = []int{1, 2, 3, 4, 8, 8, 16, 17, 32, 256}
 
 func (g *Gen) scope() *scope {
-	sc := &scope{}
+	sc := &scope{consts: g.p.Consts}
 	for _, l := range g.fn.Locals {
 		if l.T.ArrLen > 0 {
 			sc.arrays = append(sc.arrays, l)
@@ -265,6 +266,18 @@ func (g *Gen) expr(sc *scope, base string, depth int) string {
 	case k < 18 || (depth <= 0 && k < 35):
 		return g.literal(base, sc)
 	case k < 50 || depth <= 0:
+		if g.rng.Chance(1, 6) {
+			// a named constant of this type (a typed constant-valued leaf)
+			var cs []Const
+			for _, c := range sc.consts {
+				if c.Base == base {
+					cs = append(cs, c)
+				}
+			}
+			if len(cs) > 0 {
+				return cs[g.rng.Intn(len(cs))].Name
+			}
+		}
 		if len(vars) > 0 {
 			return vars[g.rng.Intn(len(vars))].Name
 		}
@@ -341,14 +354,39 @@ func (g *Gen) expr(sc *scope, base string, depth int) string {
 		var r string
 		switch op {
 		case "<<", ">>", "~mod<<":
-			if g.rng.Chance(3, 4) {
+			if g.rng.Chance(3, 5) {
 				r = fmt.Sprint(g.rng.Intn(baseInfo[base].Bits + 1))
 			} else {
 				nums := sc.numeric()
-				if len(nums) > 0 {
+				// variables whose declared range fits the shift bounds come first: a
+				// run-time shift amount up to bits-1 (the constant-operand shifts of
+				// the generated C are only exercised that way)
+				var fit []Var
+				for _, v := range nums {
+					if _, hi := v.T.Bounds(); hi != nil && hi.Cmp(bi(int64(baseInfo[base].Bits-1))) <= 0 && !baseInfo[v.T.Base].Signed {
+						fit = append(fit, v)
+					}
+				}
+				if len(fit) > 0 && g.rng.Chance(4, 5) {
+					r = fit[g.rng.Intn(len(fit))].Name
+				} else if len(nums) > 0 {
 					r = nums[g.rng.Intn(len(nums))].Name
 				} else {
 					r = "1"
+				}
+				if g.rng.Chance(1, 3) {
+					// constant (named or literal) shifted by a run-time amount
+					var cs []Const
+					for _, c := range sc.consts {
+						if c.Base == base {
+							cs = append(cs, c)
+						}
+					}
+					if len(cs) > 0 && g.rng.Chance(2, 3) {
+						l = cs[g.rng.Intn(len(cs))].Name
+					} else {
+						l = g.literal(base, sc)
+					}
 				}
 			}
 		case "/", "%":
@@ -960,6 +998,23 @@ func (g *Gen) NewProgram() *Prog {
 	g.nTmp = 0
 	g.conds = nil
 	g.signed = g.rng.Chance(1, 7)
+	if g.rng.Chance(1, 2) {
+		// named constants: typed constant-valued leaves (the generated C writes them
+		// as bare literals, whose C type depends on the value, not on the Wuffs type)
+		vals := []int64{0, 1, 7, 255, 256, 65535, 65536, 0x7FFFFFFF, 0x80000000, 0xFFFFFFFF}
+		for i, nc := 0, 1+g.rng.Intn(3); i < nc; i++ {
+			base := g.pick([]string{"u64", "u64", "u32", "u16", "u8"})
+			_, hi := baseBounds(base)
+			v := bi(vals[g.rng.Intn(len(vals))])
+			if g.rng.Chance(1, 5) {
+				v = hi
+			}
+			if v.Cmp(hi) > 0 {
+				v = hi
+			}
+			p.Consts = append(p.Consts, Const{fmt.Sprintf("K%d", i), base, v})
+		}
+	}
 	nf := 2 + g.rng.Intn(4)
 	for i := 0; i < nf; i++ {
 		p.Fields = append(p.Fields, Var{fmt.Sprintf("f%d", i), g.randScalarTy(true, 30)})
@@ -1078,7 +1133,7 @@ func cloneStmts(ss []*Stmt) []*Stmt {
 }
 
 func (p *Prog) Clone() *Prog {
-	q := &Prog{Fields: append([]Var(nil), p.Fields...)}
+	q := &Prog{Consts: append([]Const(nil), p.Consts...), Fields: append([]Var(nil), p.Fields...)}
 	for _, f := range p.Funcs {
 		c := *f
 		c.Params = append([]Var(nil), f.Params...)
